@@ -58,8 +58,18 @@ class Engine:
         t = self.crate.thir.get(name)
         if t is None:
             for c in self.F.crates:
-                if name in c.thir: return c.thir[name]
-        return t
+                if name in c.thir: t = c.thir[name]; break
+        if t is None: return None
+        # loops over a spelt-out array of plain values read as the sequence they abbreviate (`for leaf in [BDD::True, BDD::False] { .. }`)
+        if not hasattr(self, '_unrolled'): self._unrolled = {}
+        if name not in self._unrolled:
+            import facts as _facts
+            if any(x.get('k') == 'Array' for x in _facts.walk(t['body'])):
+                nb = _facts.unroll_array_loops(t['body'])
+                if any(isinstance(x, dict) and x.get('synthetic') == 'unrolled-array-loop' for x in _facts._all_nodes(nb)):
+                    u = dict(t); u['body'] = nb; t = u
+            self._unrolled[name] = t
+        return self._unrolled[name]
 
     def variants(self, adt):
         for c in self.F.crates:
